@@ -138,9 +138,21 @@ func RunCase(prog *ssa.Program, pkg *ssa.Package, harness string, shape map[stri
 	if req != nil {
 		return nil, req, nil
 	}
+	prunedLate := false
 	if pruned {
-		res.Verdict = "pruned"
-		return res, nil, nil
+		// A case the harness declares outside its space is dropped - unless an assertion has
+		// already failed for certain (its condition folded to true) on the way there: the history
+		// up to that assertion is a legal one, so the failure stands.
+		for _, o := range e.Obls {
+			if o.Cond.IsTrue() {
+				prunedLate = true
+			}
+		}
+		if !prunedLate {
+			res.Verdict = "pruned"
+			return res, nil, nil
+		}
+		st = &State{G: e.C.False, Heap: map[*Obj]interface{}{}}
 	}
 	if err != nil {
 		res.Verdict = "inconclusive"
